@@ -185,7 +185,8 @@ class PianorollSequence(events_lib.EventSequence):
         (quantized_sequence.total_quantized_steps - start_step,
          max_pitch - min_pitch + 1), bool)
 
-    for note in quantized_sequence.notes:
+    for note in sorted(quantized_sequence.notes,
+                       key=lambda n: n.quantized_start_step):
       if note.quantized_start_step < start_step:
         continue
       if not min_pitch <= note.pitch <= max_pitch:
